@@ -339,6 +339,13 @@ def r3_from_outcome(report, repo):
     k = classify(n, []) if isinstance(n, ast.expr) else None
     if k in ('raised', 'timeout', 'stop'):
       ladder.add(k)
+  report.check(
+      kinds >= {'raised', 'timeout', 'stop'}, rule,
+      'PhaseExecutionOutcome.is_terminal', 'is_terminal-complete', it.node,
+      'is_terminal covers exception, timeout and STOP',
+      'is_terminal no longer covers %s: such an outcome does not stop the '
+      'test and is never finalised as ERROR/TIMEOUT/FAIL (the run can end '
+      'PASS)' % sorted({'raised', 'timeout', 'stop'} - kinds))
   report.check(kinds <= ladder, rule, 'PhaseExecutionOutcome.is_terminal',
                'is_terminal-kinds', it.node,
                'every terminal kind %s has a row in the finalisation ladder' %
@@ -589,7 +596,12 @@ def r6_internal_error(report, repo):
 
   def term_edge(src, l, dst):
     return src.kind == 'test' and l == 'T' and \
-        dotted(src.ast) == 'self._last_outcome.is_terminal'
+        dotted(src.ast) == 'self._last_outcome.is_terminal' and \
+        g.dominated_by_edge(src, lambda a, l2, b: a.kind == 'test' and (
+            (dotted(a.ast) == 'self._last_outcome' and l2 == 'T') or
+            (isinstance(a.ast, ast.Compare) and
+             dotted(a.ast.left) == 'self._last_outcome' and
+             l2 == ('T' if isinstance(a.ast.ops[0], ast.IsNot) else 'F'))))
 
   for h in catch_all:
     hn = [x for x in g.nodes if x.kind == 'handler' and x.ast is h]
